@@ -246,7 +246,7 @@ def run(tier, seed, t0):
         parts.append(sweep("memory", [], LOGINS, 5))
         parts.append(sweep_hist("memory", rest_scope_histories(), "rest-scope"))
         parts.append(sweep_hist("pathio", rest_scope_histories(), "rest-scope"))
-        parts.append(bfs("memory", 5, 400000))
+        parts.append(bfs("memory", 6, 600000))
         parts.append(bfs("pathio", 4, 100000))
         parts.append(bfs("async", 3, 40000))
         parts.append(sweep("memory", ["USER anonymous", "PASV", "@data"], REDUCED, 3))
@@ -257,7 +257,7 @@ def run(tier, seed, t0):
     bounds = {"path_timeout": "every command of the alphabet from %d prefixes on a server with path_timeout=0.05 whose "
                               "backend calls take 0.125 s" % len(TIMEOUT_PREFIXES),
               "alphabet_size": len(ALPHABET), "reduced_alphabet": len(REDUCED), "tier_depths": "quick: memory 4, pathio 3, async 2; "
-              "thorough: memory 5, pathio 4, async 3", "tree": "d/, d/f, g", "users": ["anonymous", "bob(password, home /d)"]}
+              "thorough: memory 6, pathio 4, async 3", "tree": "d/, d/f, g", "users": ["anonymous", "bob(password, home /d)"]}
     return report.finish(
         PID, tier, seed, "model_checking", part, t0,
         rule="BFS over command histories, each rebuilt on a fresh real server inside SimLoop and compared step by step "
